@@ -487,3 +487,53 @@ func runW5(s *core.Shard, next func(string) bool) {
 	one("many-documents/300", single(strings.Repeat("services: {s: {image: i}}\n---\n", 300)))
 	one("long-dollar-run", single("services: {s: {image: \""+strings.Repeat("$", 100001)+"\"}}\n"))
 }
+
+// ---- W6: histories: many loads in one process ---------------------------------------
+
+// runW6 performs long sequences of loads inside one worker process: whatever per-process state
+// the library keeps (for instance the list of files already warned about the obsolete `version`
+// attribute) must never make a later load crash, block or fail. A load that blocks for ever leaves
+// the worker with every goroutine asleep: the Go runtime then aborts it and the driver reports the
+// dead worker; one that spins trips the CPU budget.
+func runW6(s *core.Shard, next func(string) bool) {
+	variants := []struct {
+		id  string
+		doc func(i int) string
+	}{
+		{"version-attribute", func(i int) string {
+			return fmt.Sprintf("version: \"3.%d\"\nservices:\n  s%d:\n    image: img:%d\n", i%10, i, i)
+		}},
+		{"plain", func(i int) string { return fmt.Sprintf("services:\n  s%d:\n    image: img:%d\n", i, i) }},
+		{"version-and-extends", func(i int) string {
+			return fmt.Sprintf("version: \"2.4\"\nservices:\n  base: {image: b%d}\n  s: {extends: base, labels: {i: \"%d\"}}\n", i, i)
+		}},
+	}
+	for _, v := range variants {
+		if !next("w6/" + v.id) {
+			continue
+		}
+		n := s.Pick(200, 1500)
+		dir := s.Scratch()
+		ok := 0
+		for i := 0; i < n; i++ {
+			name := fmt.Sprintf("compose-%s-%04d.yaml", v.id, i) // a file name this process has not loaded before
+			c := &ld.Case{Files: map[string]string{name: v.doc(i)}, ComposeFiles: []string{name}}
+			if err := ld.Materialise(dir, c); err != nil {
+				s.Inconclusive("materialise: " + err.Error())
+				return
+			}
+			r := judge(s, dir, c, expect{Workload: "W6/" + v.id, Generic: "load #" + fmt.Sprint(i)}, nil)
+			if r.Err == nil && r.Panic == nil {
+				ok++
+			}
+			_ = os.Remove(filepath.Join(dir, name))
+		}
+		s.Add("w6_loads", n)
+		s.Cover("w6-history", v.id)
+		s.Nontrivial("w6", v.id, fmt.Sprint(n))
+		if ok != n {
+			s.Violation(map[string]string{"kind": "history-dependent-failure", "variant": v.id},
+				fmt.Sprintf("%d of %d loads of equally shaped valid documents in one process failed", n-ok, n), map[string]any{"case.json": map[string]any{"variant": v.id, "loads": n}})
+		}
+	}
+}
